@@ -13,6 +13,10 @@ package cpusuppress
 //
 // Crash axis = enumeration: every prefix of the uninterrupted round's write sequence is put back on disk and a fresh
 // agent (new CPUSuppress, new executor with an empty ResourceCache) repeats the round with the same target.
+//
+// Cgroup churn between rounds: BE pod / container cgroups that do not exist at the start are created by the runtime between
+// two rounds (holding the parent's CPU set or a subset of it), others are removed (a removed path never comes back). The
+// set of directories is fixed during a round. Everything is stated over the cgroups that exist.
 
 import (
 	"fmt"
@@ -101,12 +105,14 @@ type cgbCfg struct {
 	Force   int      `json:"force"`
 	MidJump bool     `json:"mid_jump"`
 	Crash2  bool     `json:"crash2"`
+	Absent  []int    `json:"absent,omitempty"` // pod / container cgroups that do not exist at the start (everything below an absent node is absent)
 }
 
 type cgbOp struct {
-	K    string `json:"k"` // suppress
-	Jump int    `json:"jump"`
-	Cpus string `json:"cpus"` // the BE CPU set decided by the suppress policy for this round
+	K    string `json:"k"` // suppress | create (the runtime creates the cgroup of Node holding Cpus, cut down to its parent's set) | remove (Node and everything below it)
+	Jump int    `json:"jump,omitempty"`
+	Cpus string `json:"cpus,omitempty"` // suppress: the BE CPU set decided by the suppress policy for this round
+	Node int    `json:"node,omitempty"`
 }
 
 func cgbSubset(g *sim.Rng, p cgbSet, equalBias int) cgbSet {
@@ -175,9 +181,59 @@ func (cgbEngine) Generate(p *sim.Plan, g *sim.Rng) {
 	if thorough {
 		n = g.Range(1, 6)
 	}
+	nn := len(cfg.Parents)
+	present := make([]bool, nn)
+	gone := make([]bool, nn)
+	for i := range present {
+		present[i] = true
+	}
+	churn := nn > 2 && g.Bool(0.3)
+	if churn {
+		for i := 2; i < nn; i++ {
+			if !present[cfg.Parents[i]] || g.Bool(0.4) {
+				present[i] = false
+				cfg.Absent = append(cfg.Absent, i)
+			}
+		}
+		if n < 2 {
+			n = 2
+		}
+	}
 	cur := vals[1]
 	var ops []cgbOp
 	for k := 0; k < n; k++ {
+		if churn && k > 0 {
+			// after a completed round every existing BE cgroup holds cur; new cgroups start from their parent's set
+			held := make([]cgbSet, nn)
+			for i := range held {
+				held[i] = cur
+			}
+			for i := 2; i < nn; i++ {
+				if present[i] || gone[i] || !present[cfg.Parents[i]] || !g.Bool(0.6) {
+					continue
+				}
+				held[i] = cgbSubset(g, held[cfg.Parents[i]], 6)
+				present[i] = true
+				ops = append(ops, cgbOp{K: "create", Node: i, Cpus: cgbString(held[i])})
+			}
+			if g.Bool(0.12) {
+				var cands []int
+				for i := 2; i < nn; i++ {
+					if present[i] {
+						cands = append(cands, i)
+					}
+				}
+				if len(cands) > 0 {
+					x := cands[g.Intn(len(cands))]
+					ops = append(ops, cgbOp{K: "remove", Node: x})
+					for i := x; i < nn; i++ {
+						if i == x || (cfg.Parents[i] >= x && gone[cfg.Parents[i]]) {
+							present[i], gone[i] = false, true
+						}
+					}
+				}
+			}
+		}
 		op := cgbOp{K: "suppress"}
 		if k > 0 || g.Bool(0.2) {
 			f := cfg.Force
@@ -231,6 +287,8 @@ type cgbH struct {
 	sub     *cgbSub
 	stops   []chan struct{}
 	pending *[3]string
+	present []bool
+	gone    []bool
 }
 
 func (h *cgbH) nodeDir(n int) string {
@@ -263,13 +321,15 @@ func (h *cgbH) effective(n int) {
 		h.r.HarnessFail("write effective: %v", err)
 	}
 	for _, c := range h.kids[n] {
-		h.effective(c)
+		if h.present[c] {
+			h.effective(c)
+		}
 	}
 }
 
 func (h *cgbH) restore(snap []cgbSet) {
 	for n, v := range snap {
-		if h.val[n] != v {
+		if h.present[n] && h.val[n] != v {
 			h.put(n, v)
 		}
 	}
@@ -278,6 +338,9 @@ func (h *cgbH) restore(snap []cgbSet) {
 func (h *cgbH) scan() []int {
 	var out []int
 	for n, p := range h.path {
+		if !h.present[n] {
+			continue
+		}
 		st, err := os.Lstat(p)
 		if err != nil {
 			h.r.HarnessFail("stat: %v", err)
@@ -294,7 +357,7 @@ func (h *cgbH) conflict(n int, v cgbSet) (string, string) {
 		return "child-exceeds-parent", fmt.Sprintf("cpuset of node %d becomes %s, its parent node %d holds %s", n, cgbString(v), p, cgbString(h.val[p]))
 	}
 	for _, c := range h.kids[n] {
-		if h.val[c]&^v != 0 {
+		if h.present[c] && h.val[c]&^v != 0 {
 			return "parent-below-child", fmt.Sprintf("cpuset of node %d becomes %s, its child node %d still holds %s", n, cgbString(v), c, cgbString(h.val[c]))
 		}
 	}
@@ -321,6 +384,9 @@ func (h *cgbH) Call(w *resourceexecutor.VerifUpdater, pass string, do func() (re
 	n, ok := h.byPath[w.Path()]
 	if !ok {
 		r.Fail("stray-write", "unknown-path", "%s: an updater for %s was created, which is not a cpuset.cpus file of the BE tree", s.name, w.Path())
+	}
+	if !h.present[n] {
+		r.Fail("stray-write", "absent-cgroup", "%s: an updater for %s was created, a BE cgroup that does not exist", s.name, w.Path())
 	}
 	s.calls++
 	if h.cfg.MidJump && r.Flip(0.05) {
@@ -407,7 +473,7 @@ func (h *cgbH) round(agent *CPUSuppress, target cgbSet, s *cgbSub) {
 	}
 	merged := s.start[1] | target
 	for n := 1; n < len(s.start); n++ {
-		if s.start[n] == target && merged != target {
+		if h.present[n] && s.start[n] == target && merged != target {
 			r.Tag("be-cgroup-at-target-while-root-differs")
 		}
 	}
@@ -434,7 +500,7 @@ func (h *cgbH) round(agent *CPUSuppress, target cgbSet, s *cgbSub) {
 	// completion: every BE cgroup holds the target
 	r.OracleEval()
 	for n := 1; n < len(h.val); n++ {
-		if h.val[n] != target {
+		if h.present[n] && h.val[n] != target {
 			h.deferFail("target-not-reached", "be-cpuset", "%s: the round returned but node %d holds %s, target %s (held %s at the start; BE root held %s; %d calls, %d writes)",
 				s.name, n, cgbString(h.val[n]), cgbString(target), cgbString(s.start[n]), cgbString(s.start[1]), s.calls, s.writes)
 			break
@@ -534,25 +600,47 @@ func (cgbEngine) Execute(r *sim.Run) {
 	}
 	h.path = make([]string, len(cfg.Parents))
 	h.val = make([]cgbSet, len(cfg.Parents))
+	h.present = make([]bool, len(cfg.Parents))
+	h.gone = make([]bool, len(cfg.Parents))
+	for n := range h.present {
+		h.present[n] = true
+	}
+	for _, a := range cfg.Absent {
+		if a >= 2 && a < len(cfg.Parents) { // the kubepods and BE QoS cgroups always exist
+			h.present[a] = false
+		}
+	}
+	for n := 2; n < len(cfg.Parents); n++ {
+		if !h.present[cfg.Parents[n]] {
+			h.present[n] = false
+		}
+	}
 	for n := range cfg.Parents {
+		h.path[n] = filepath.Join(h.nodeDir(n), "cpuset.cpus")
+		h.byPath[h.path[n]] = n
+		if !h.present[n] {
+			r.Probe("node:absent-at-start")
+			continue
+		}
 		if err := os.MkdirAll(h.nodeDir(n), 0o755); err != nil {
 			r.HarnessFail("mkdir: %v", err)
 		}
-		h.path[n] = filepath.Join(h.nodeDir(n), "cpuset.cpus")
-		h.byPath[h.path[n]] = n
 	}
 	for n := range cfg.Parents {
 		v, ok := cgbParse(cfg.Init[n])
 		if !ok || v == 0 {
 			r.HarnessFail("bad init")
 		}
-		h.put(n, v)
+		if h.present[n] {
+			h.put(n, v)
+		}
 	}
 	for n := 1; n < len(h.val); n++ {
-		if h.val[n]&^h.val[cfg.Parents[n]] != 0 {
+		if h.present[n] && h.val[n]&^h.val[cfg.Parents[n]] != 0 {
 			r.HarnessFail("start state not hierarchy-valid")
 		}
 	}
+	r.Probe("cfg:churn=" + strconv.FormatBool(len(cfg.Absent) > 0))
 	r.Probe("cfg:v2=" + strconv.FormatBool(cfg.V2))
 	r.Probe("cfg:kernel=" + strconv.FormatBool(cfg.Kernel))
 	r.Sample("v2=%v kernel=%v nodes=%d init=%v force=%ds", cfg.V2, cfg.Kernel, len(cfg.Parents), cfg.Init, cfg.Force)
@@ -561,6 +649,52 @@ func (cgbEngine) Execute(r *sim.Run) {
 	all := h.val[0]
 	for oi, op := range ops {
 		t, ok := cgbParse(op.Cpus)
+		switch n := op.Node; {
+		case op.K == "create":
+			// the runtime creates the cgroup: applicable when it does not exist, never existed and its parent exists
+			if n < 2 || n >= len(cfg.Parents) || h.present[n] || h.gone[n] || !h.present[cfg.Parents[n]] || !ok {
+				r.OpSkipped()
+				continue
+			}
+			pv := h.val[cfg.Parents[n]]
+			if t &= pv; t == 0 {
+				t = pv // a new cgroup never starts outside its parent
+			}
+			if err := os.MkdirAll(h.nodeDir(n), 0o755); err != nil {
+				r.HarnessFail("mkdir: %v", err)
+			}
+			h.present[n] = true
+			h.put(n, t)
+			r.OpDone()
+			r.Probe("op:create")
+			if t != h.val[1] {
+				r.Probe("create:differs-from-be-root")
+			}
+			r.Event("create n%d %s", n, cgbString(t))
+			r.Sample("op%d create n%d(p%d)=%s", oi, n, cfg.Parents[n], cgbString(t))
+			continue
+		case op.K == "remove":
+			if n < 2 || n >= len(cfg.Parents) || !h.present[n] {
+				r.OpSkipped()
+				continue
+			}
+			if err := os.RemoveAll(h.nodeDir(n)); err != nil {
+				r.HarnessFail("rmdir: %v", err)
+			}
+			var mark func(x int)
+			mark = func(x int) {
+				h.present[x], h.gone[x] = false, true
+				for _, c := range h.kids[x] {
+					mark(c)
+				}
+			}
+			mark(n)
+			r.OpDone()
+			r.Probe("op:remove")
+			r.Event("remove n%d", n)
+			r.Sample("op%d remove n%d", oi, n)
+			continue
+		}
 		if op.K != "suppress" || !ok || t == 0 || t&^all != 0 {
 			r.OpSkipped()
 			continue
@@ -591,6 +725,9 @@ func (cgbEngine) Execute(r *sim.Run) {
 		}
 		var st []string
 		for n := 1; n < len(h.val); n++ {
+			if !h.present[n] {
+				continue
+			}
 			st = append(st, fmt.Sprintf("n%d(p%d)=%s", n, cfg.Parents[n], cgbString(h.val[n])))
 		}
 		r.Sample("op%d jump=%ds target=%s tree: %s", oi, op.Jump, op.Cpus, strings.Join(st, " "))
